@@ -41,7 +41,7 @@ func Reach(starts []*ssa.BasicBlock, cut Cut) map[*ssa.BasicBlock]bool {
 		it := stack[len(stack)-1]
 		stack = stack[:len(stack)-1]
 		b := it.b
-		only := it.ctx.decide(b)
+		only := it.ctx.decide(b, nil)
 		for i, s := range b.Succs {
 			e := Edge{b, i}
 			if cut[e] || (only >= 0 && only != i) {
@@ -129,6 +129,15 @@ func Walk(b *ssa.BasicBlock, idx int, cut Cut, visit func(ssa.Instruction) bool)
 // pred -> b (pred may be nil): the values the phis of b take on that edge are
 // known to the exploration.
 func WalkCtx(b *ssa.BasicBlock, idx int, pred *ssa.BasicBlock, cut Cut, visit func(ssa.Instruction) bool) {
+	WalkFacts(b, idx, pred, cut, nil, visit)
+}
+
+// WalkFacts is WalkCtx with boolean values whose outcome is known for the
+// whole exploration (the start point lies behind the instruction that
+// computed them, and the question asked is "what happens when it was true /
+// false"): an If on such a value, or on a result variable that holds it on the
+// incoming edge, goes one way only.
+func WalkFacts(b *ssa.BasicBlock, idx int, pred *ssa.BasicBlock, cut Cut, facts map[ssa.Value]bool, visit func(ssa.Instruction) bool) {
 	visited := map[*ssa.BasicBlock]bool{}  // instructions visited from the top
 	absorbed := map[*ssa.BasicBlock]bool{} // a visit stopped the path inside the block
 	type key struct {
@@ -172,7 +181,7 @@ func WalkCtx(b *ssa.BasicBlock, idx int, pred *ssa.BasicBlock, cut Cut, visit fu
 		} else if absorbed[it.b] {
 			continue
 		}
-		only := it.ctx.decide(it.b)
+		only := it.ctx.decide(it.b, facts)
 		for i, s := range it.b.Succs {
 			e := Edge{it.b, i}
 			if cut[e] || (only >= 0 && only != i) {
@@ -346,12 +355,41 @@ func (c joinCtx) enter(p, s *ssa.BasicBlock) joinCtx {
 
 // decide returns the only feasible successor index of b under the context,
 // or -1.
-func (c joinCtx) decide(b *ssa.BasicBlock) int {
-	if len(c) == 0 || len(b.Instrs) == 0 || len(b.Succs) != 2 {
+func (c joinCtx) decide(b *ssa.BasicBlock, facts map[ssa.Value]bool) int {
+	if (len(c) == 0 && len(facts) == 0) || len(b.Instrs) == 0 || len(b.Succs) != 2 {
 		return -1
 	}
 	iff, ok := b.Instrs[len(b.Instrs)-1].(*ssa.If)
 	if !ok {
+		return -1
+	}
+	if len(facts) > 0 {
+		cond, neg := iff.Cond, false
+		for {
+			u, ok := cond.(*ssa.UnOp)
+			if !ok || u.Op != token.NOT {
+				break
+			}
+			neg, cond = !neg, u.X
+		}
+		known, have := facts[cond]
+		if !have {
+			if ph, isPhi := cond.(*ssa.Phi); isPhi {
+				for _, e := range c {
+					if e.j == ph.Block() && e.pi < len(ph.Edges) {
+						known, have = facts[ph.Edges[e.pi]]
+					}
+				}
+			}
+		}
+		if have {
+			if known != neg {
+				return 0
+			}
+			return 1
+		}
+	}
+	if len(c) == 0 {
 		return -1
 	}
 	incoming := func(v ssa.Value) (ssa.Value, bool) {
@@ -569,7 +607,7 @@ func ValueAt(v ssa.Value, use *ssa.BasicBlock) ssa.Value {
 			}
 			for i := range ph.Edges {
 				c := joinCtx{{j, i}}
-				if d := c.decide(b); d >= 0 && d != out {
+				if d := c.decide(b, nil); d >= 0 && d != out {
 					feasible[i] = false
 				}
 			}
